@@ -13,7 +13,7 @@
 //   rotate                         `writer = PacketWriter(other_path, lt)` (move assignment onto the live writer, the
 //                                  usual way to start the next file): the first file must be complete and nothing leak
 //   chop <k>                       truncates the file by k bytes
-//   read k=v ...                   api=next|loop|iter  filt=none|empty|cfg|ctor|post  raw=0|1  src=name|fp  mv=0|1  tog=K (api=next: raw mode flipped after K packets)
+//   read k=v ...                   api=next|loop|iter  filt=none|empty|cfg|ctor|post|clr (ctor filter, then set_filter(""))  raw=0|1  src=name|fp  mv=0|1  tog=K (api=next: raw mode flipped after K packets)
 //                                  max=<n> stop=<k> thr=<i>:<mal|nf>,...  cb=packet|pdu   f=<filter text to end of line>
 //   offline <how> f=<filter>       OfflinePacketFilter over the frames read back as RawPDU (how = pdu | buf)
 //
@@ -379,13 +379,17 @@ static std::string do_read(Case& c, const std::string& line) {
                 if (filt == "cfg") cfg.set_filter(filter);
                 cfg.set_pcap_sniffing_method(method_of(c.method));
                 if (fp) sn.reset(new FileSniffer(fp, cfg)); else sn.reset(new FileSniffer(c.path, cfg));
-            } else if (filt == "ctor") {
+            } else if (filt == "ctor" || filt == "clr") {
                 if (fp) sn.reset(new FileSniffer(fp, filter)); else sn.reset(new FileSniffer(c.path, filter));
             } else {
                 if (fp) sn.reset(new FileSniffer(fp)); else sn.reset(new FileSniffer(c.path));
             }
             if (filt == "post") {
                 if (!sn->set_filter(filter)) return "read open=ok set_filter=0";
+            }
+            if (filt == "clr") {
+                // the filter given to the constructor is removed again: the empty expression accepts every frame
+                if (!sn->set_filter("")) return "read open=ok set_filter=0";
             }
             sn->set_pcap_sniffing_method(method_of(c.method));
         } catch (const std::exception& e) {
